@@ -154,6 +154,7 @@ CATALOGUE: list[tuple] = [
     ("grammar-error-context-eof-on-previous-line", ["C11"], "src/pest/grammar/exceptions.py", "        if not lines or lines[-1].splitlines() != [lines[-1]]:\n            lines.append(\"\")", "        if not lines:\n            lines.append(\"\")", "fire", "_error_context"),
     # ---- C02 O16 (the skip pass on model loop shapes)
     ("skip-pass-ignores-unresolved-alternative", ["C02"], SKIPPERS, "            if not inlined_subs:\n                return None\n", "            if not inlined_subs:\n                continue\n", "fire", "skip"),
+    ("squash-ci-literal-scoped-ascii-flag", ["C02", "C12"], CHOICE, '                insensitive_parts.append(\n                    "".join(\n                        f"[{ch.lower()}{ch.upper()}]"\n                        if ch.isascii() and ch.isalpha()\n                        else re.escape(ch)\n                        for ch in val\n                    )\n                )\n', '                insensitive_parts.append(f"(?ai:{re.escape(val)})")\n', "fire", "squash"),
     ("skip-pass-takes-rewritten-loop", ["C02"], SKIPPERS, "    if isinstance(expr, String):\n        subs.append(expr.value)\n        return SkipUntil(subs)\n", "    if isinstance(expr, SkipUntil):\n        subs.extend(expr.subs)\n        return SkipUntil(subs)\n\n    if isinstance(expr, String):\n        subs.append(expr.value)\n        return SkipUntil(subs)\n", "fire", "skip"),
     ("skip-pass-any-second-element", ["C02"], SKIPPERS, '                case (NegativePredicate(expression=inner), Any() | Identifier("ANY")):', "                case (NegativePredicate(expression=inner), _):", "fire", "skip"),
     # ---- pair visibility under @ / $ / ! (the semantics fix 70d5e83 introduced)
